@@ -127,17 +127,27 @@ def short(rows, snap):
 def check_collapse(ds, snap):
     """collapse(ds) for every reference and with a custom collapser."""
     from typhon.collocations import collapse
-    variants = [(None, 0, None), (snap.names[0], 0, None),
-                (snap.names[1], 1, None), (snap.names[1], 1, "max")]
+    # The order matters (call history on one interpreter): a call with a
+    # custom collapser - one adding a statistic, one replacing a default one -
+    # is always followed by calls that rely on the defaults.
+    default = {"mean": "mean", "std": "std", "number": "number"}
+    variants = [
+        (None, 0, None),
+        (snap.names[1], 1, {"max": (lambda m, a: np.nanmax(m, axis=a),
+                                    "max")}),
+        (snap.names[0], 0, None),
+        (snap.names[0], 0, {"mean": (lambda m, a: np.nanmin(m, axis=a),
+                                     "min")}),
+        (snap.names[1], 1, None),
+    ]
     for reference, side, custom in variants:
-        funcs = FUNCS
+        funcs = dict(default)
         kwargs = {}
         if reference is not None:
             kwargs["reference"] = reference
         if custom:
-            kwargs["collapser"] = {
-                "max": lambda m, a: np.nanmax(m, axis=a)}
-            funcs = FUNCS + ("max",)
+            kwargs["collapser"] = {k: f for k, (f, _) in custom.items()}
+            funcs.update({k: stat for k, (_, stat) in custom.items()})
         collapsed, bad = call("collapse", collapse, ds, **kwargs)
         if bad is None:
             bad = model.compare_collapsed(collapsed, snap, side, funcs)
@@ -145,7 +155,7 @@ def check_collapse(ds, snap):
                 bad = ("collapse/" + bad[0],) + bad[1:]
         if bad:
             return bad[:3] + ("reference=%r custom=%r %s" % (
-                reference, custom, bad[3]),)
+                reference, sorted(custom) if custom else None, bad[3]),)
     return None
 
 
